@@ -3,7 +3,7 @@
 import json, subprocess
 
 CLAIMS = {
- "C01": ("sibling-schema agreement over typed AST (fragger/decorate/restore), entry-point reachability and flag/FileSet dataflow, per-file scoping rules of the fragment pass (state allocated per file, avoided line ranges span one entity, attachment searches stop at file boundaries, search loops separate found from not found)",
+ "C01": ("sibling-schema agreement over typed AST (fragger/decorate/restore), entry-point reachability and flag/FileSet dataflow, per-file scoping rules of the fragment pass (state allocated per file, also when written through local closures, avoided line ranges span one entity, attachment searches stop at file boundaries, search loops separate found from not found)",
          "Exhaustive static comparison of the three converters for all 54 node types plus entry-point rules: necessary conditions of byte-exact round trip, decided for all inputs; byte equality itself goes through go/printer and is not decided.", "4 C01"),
  "C02": ("locality analysis of every render operand + restorer field-write inventory + decorate/Clone carriage rules + clause-kind symmetry of the attachment conditions",
          "Decides that whatever is attached to a node travels with it (rendering reads only the node's own storage; Clone and decorate carry it); which node a comment is attached to is decided by positional heuristics in link() and is NOT decided.", "4 C02"),
@@ -19,32 +19,33 @@ CLAIMS = {
          "Necessary conditions of correct import management decided for all configurations; exactness of the import set, block layout preservation and byte output are not decided.", "4 C07"),
  "C08": ("CFG rule on updateImports (mutation-free path, no store before an error return) + change-guard rule on every re-sort/re-spacing/re-parenthesising (path conditions) + resolver-domain rule + constant propagation through mergeDecorations against the restorer's spacing state machine + slot-order rule on decorateSelectorExpr (reaching definitions) + selector layout agreement",
          "Necessary conditions of transparency decided for all inputs; byte equality and resolver accuracy are not decided.", "4 C08"),
- "C09": ("role-filter exhaustiveness (avoid table vs static field types in both converters), path-condition specifications (propositional equivalence of return conditions over reaching definitions) of resolvePath, gotypes/goast ResolveIdent and goast's import table, vendor anchoring, file-argument provenance, error discipline",
+ "C09": ("role-filter exhaustiveness (avoid table vs static field types in both converters), carriage rule (resolver answer and selected name stored on every returning path), path-condition specifications (propositional equivalence of return conditions over reaching definitions) of resolvePath, gotypes/goast ResolveIdent and goast's import table (callback or loop form, with a pruning rule: every import spec reaches the table), vendor anchoring, file-argument provenance, error discipline",
          "Decides the structural part of 'paths exactly on remote references' (which positions may ever be resolved, vendor stripping on element boundaries, errors surfacing); the classification of an identifier is a runtime fact about go/types objects and is not decided. The clause-presence rule is a frozen-fragment rule and fires on rewrites of the two small resolvers.", "4 C09"),
+ "C10": ("composition of carriage rules over the typed AST: which identifier positions may be resolved (role filter), path-condition specification of resolvePath and the two decorator resolvers, dataflow rule that the resolver's answer and the selected name are stored on every returning path (reaching definitions + path conditions), per-field Clone completeness, and on the restore side the discovery scan, every-missing-import-added, unique-name, alias-flow, single-writer/reader and selector-construction rules",
+         "Decides only structural necessary conditions: a reference is recorded, carried and re-bound as (package path, object name), independent of the import names of the file it came from. That the moved code type-checks and denotes the same objects needs a type checker over output programs and is not decided.", "4 C10"),
  "C11": ("allocation/registration ordering analysis of both converters (event order, non-nil keys, memo lookup)",
          "Decides the node-map laws for all inputs by induction over the converter cases.", "4 C11"),
- "C12": ("cursor/position-store/line-table rules over the typed AST of the restorer (hand-written and generated; offsets as sums over reaching definitions, line-break blocks by symbolic effect), statement-order rule on RestoreFile, declaration-order rule against go/ast structs",
-         "Decides cursor monotonicity, that positions are cursor-or-NoPos, base-relative strictly growing line offsets, append-only comments, file registration covering all positions; rank equality with a re-parse is not decided. Two known findings (Extras post-pass, TypeSpec alias order).", "4 C12"),
+ "C12": ("cursor/position-store/line-table rules over the typed AST of the restorer (hand-written and generated; offsets as sums over reaching definitions, line-break blocks by symbolic effect), statement-order rule on RestoreFile, escape analysis of the per-file buffers (a truncated buffer must not have been handed out), declaration-order rule against go/ast structs",
+         "Decides cursor monotonicity, that positions are cursor-or-NoPos, base-relative strictly growing line offsets, append-only comments, file registration covering all positions; rank equality with a re-parse is not decided. Two known defects, listed as three findings (Extras post-pass at its two sites, TypeSpec alias order).", "4 C12"),
  "C13": ("case-by-case comparison of dst.Walk with go/ast.Walk (GOROOT source) and the dst struct definitions",
          "Decides the whole statement by structural induction over Walk's cases.", "4 C13"),
  "C14": ("child-table agreement apply/Walk/struct + normal-form equality of the fork with astutil v0.1.12",
          "Same code as upstream modulo the node table, which is checked semantically; a behaviour-preserving rewrite of a forked function is reported (stated limitation).", "4 C14"),
  "C15": ("path-condition rules on ParseFile (nil file never decorated, parse error always reported), nil-result and nil-file rules, resolver file-argument provenance, optional-child guards taken from go/ast.Walk, assertion and coverage rules, map-allocation rule, index proofs (loop-bounded, constant-bounded) with a small inventory, classified inventory of explicit panic sites",
          "Decides the type- and nil-related panic sources for all inputs; the positional 'no decoration found' panics in link() are not decided (new unclassified panic sites are reported as undecided).", "4 C15"),
- "C16": ("lockset analysis over mutex-guarded fields (with caller-holds inference), global-write and goroutine/channel scan, map-iteration order classification with propositional comparator totality (all pairs of returns), cache-completeness rule, store classification by declaring package",
+ "C16": ("lockset analysis over mutex-guarded fields (with caller-holds inference), global-write and goroutine/channel scan, map-iteration order classification with propositional comparator totality (all pairs of returns; comparator functions and multi-statement literals; parallel-slice reads rejected), cache-completeness rule, store classification by declaring package",
          "Decides race-freedom of dst's own shared state (resolver cache, package-level tables) and absence of map-order dependence in the in-scope packages; the standard library's internals are trusted.", "4 C16"),
  "C17": ("error-discipline rule over all error-returning call sites + store classification + CFG reachability in updateImports (no store before an error return)",
          "Decides that resolver/parse errors surface and that no tree is modified on a failing path; retry equality follows only together with C16.", "4 C17"),
  "C18": ("ordering analysis of the four object/scope converters (memo lookup, registration before recursion, field and type-switch-arm completeness) + normal-form equality of resolve.go/scope.go with GOROOT go/ast modulo position erasure",
          "Decides the structural conditions under which the memoised conversion is a graph isomorphism and that the package builder is upstream's code without positions; concrete graphs are not evaluated.", "4 C18"),
- "C19": ("abstract interpretation of the five list methods over a two-atom sequence domain, plus an array-segment domain with symbolic bounds for in-place updates (copy / re-slice of the receiver's array)",
+ "C19": ("abstract interpretation of the five list methods over a two-atom sequence domain with emptiness facts from branch conditions and capacity-clipped slices, plus an array-segment domain with symbolic bounds for in-place updates (copy / re-slice of the receiver's array)",
          "Decides list semantics and non-aliasing for every call sequence (methods are functions of old contents and argument).", "4 C19"),
  "C20": ("who-may-call rule for file-system mutators + ordering/dataflow rule on (*Package).save",
          "Decides 'writes exactly its files, stops at first error'; byte identity of unedited files inherits C08's limits.", "4 C20"),
 }
 
 NOT_APPLICABLE = {
- "C10": "meaning preservation of moved code needs a type checker run over output programs; no static rule over dst's source bounds it (DESIGN.md 4, C10)",
 }
 PENDING = []
 
